@@ -28,6 +28,9 @@ import (
 //go:embed c17_layout.txt
 var c17Layout string
 
+//go:embed c17_posfields.txt
+var c17PosFields string
+
 func init() { register("spans", genSpans) }
 
 // Bodies outside the fragment: canonical text (whitespace-normalised) paired with the name of
@@ -499,7 +502,7 @@ func parseLayout(kinds map[string]bool, fieldOK func(kind, f string) bool) (map[
 	res := map[string][]layoutItem{}
 	var order []string
 	arity := map[string][2]int{ // op -> (#fields, #numbers) ; tokStr: 2 or 3 fields
-		"tok": {1, 1}, "tokOpt": {1, 1}, "tokStr": {2, 0}, "tokUnless": {2, 1}, "tokStrUnless": {3, 0},
+		"tok": {1, 1}, "tokOpt": {1, 1}, "tokStr": {2, 0}, "tokUnless": {2, 1}, "tokIfUnset": {2, 1}, "tokStrUnless": {3, 0},
 		"start": {1, 0}, "stop": {1, 0}, "stopOpt": {1, 0}, "child": {1, 0}, "childOpt": {1, 0}, "list": {1, 0}, "list1": {1, 0},
 	}
 	for ln, line := range strings.Split(c17Layout, "\n") {
@@ -540,7 +543,7 @@ func parseLayout(kinds map[string]bool, fieldOK func(kind, f string) bool) (map[
 				}
 				for j, a := range ws[1:] {
 					isNum := ws[0] != "tokStr" && j >= ar[0]
-					if ws[0] == "tokUnless" { // tokUnless F n B
+					if ws[0] == "tokUnless" || ws[0] == "tokIfUnset" { // tokUnless F n B
 						isNum = j == 1
 					}
 					if isNum {
@@ -572,12 +575,67 @@ func leanItem(it layoutItem) string {
 			gs[i] = lf(g)
 		}
 		return fmt.Sprintf(".tokStr %s [%s]", lf(a[0]), strings.Join(gs, ", "))
-	case "tokUnless":
-		return fmt.Sprintf(".tokUnless %s %s %s", lf(a[0]), a[1], lf(a[2]))
+	case "tokUnless", "tokIfUnset":
+		return fmt.Sprintf(".%s %s %s %s", it.op, lf(a[0]), a[1], lf(a[2]))
 	case "tokStrUnless":
 		return fmt.Sprintf(".tokStrUnless %s %s %s", lf(a[0]), lf(a[1]), lf(a[2]))
 	}
 	return fmt.Sprintf(".%s %s", it.op, lf(a[0]))
+}
+
+// posFieldsOf lists the token.Pos-typed fields of a kind in declaration order.
+func (p *astPkg) posFieldsOf(kind string) []string {
+	var res []string
+	for _, f := range p.structs[kind].fields {
+		sel, ok := f.Type.(*ast.SelectorExpr)
+		if !ok || !wIsIdent(sel.X, "token") || sel.Sel.Name != "Pos" {
+			continue
+		}
+		for _, n := range f.Names {
+			res = append(res, n.Name)
+		}
+	}
+	return res
+}
+
+// resolvePosFields: every token.Pos field of every kind -> its reviewed spec.
+func resolvePosFields(p *astPkg, kinds []string) ([]string, error) {
+	spec := map[string]string{}
+	for ln, line := range strings.Split(c17PosFields, "\n") {
+		if strings.HasPrefix(strings.TrimSpace(line), "#") || strings.TrimSpace(line) == "" {
+			continue
+		}
+		i := strings.Index(line, ":")
+		if i < 0 {
+			return nil, fmt.Errorf("c17_posfields.txt:%d: missing ':'", ln+1)
+		}
+		key, val := strings.TrimSpace(line[:i]), strings.TrimSpace(line[i+1:])
+		if _, dup := spec[key]; dup || val == "" {
+			return nil, fmt.Errorf("c17_posfields.txt:%d: duplicate or empty entry %s", ln+1, key)
+		}
+		spec[key] = val
+	}
+	var res []string
+	used := map[string]bool{}
+	for _, k := range kinds {
+		for _, f := range p.posFieldsOf(k) {
+			v, ok := spec[k+"."+f]
+			if ok {
+				used[k+"."+f] = true
+			} else if v, ok = spec["*."+f]; ok {
+				used["*."+f] = true
+			} else {
+				return nil, broken("position field %s.%s is not covered by c17_posfields.txt", k, f)
+			}
+			res = append(res, k+"."+f+"\t"+v)
+		}
+	}
+	for key := range spec {
+		if !used[key] {
+			return nil, broken("c17_posfields.txt: entry %s matches no token.Pos field of the tree under test", key)
+		}
+	}
+	return res, nil
 }
 
 func genSpans(repo, out string) error {
@@ -645,6 +703,13 @@ func genSpans(repo, out string) error {
 	}
 	w("]\n\nend GopModel.Generated.Spans\n")
 	if err := writeIfChanged(filepath.Join(out, "Spans.lean"), b.Bytes()); err != nil {
+		return err
+	}
+	pf, err := resolvePosFields(p, kinds)
+	if err != nil {
+		return err
+	}
+	if err := writeIfChanged(filepath.Join(out, "spans_posfields.txt"), []byte(strings.Join(pf, "\n")+"\n")); err != nil {
 		return err
 	}
 	var lt bytes.Buffer
